@@ -6,12 +6,26 @@
 #include "nmtools/utility/shape.hpp"
 #include "nmtools/utility/at.hpp"
 #include "nmtools/array/index/compute_indices.hpp"
+#include "nmtools/array/index/product.hpp"
 #include "nmtools/array/ndarray/hybrid.hpp"
 
 namespace nmtools::index
 {
     struct take_t {};
     struct shape_take_t {};
+
+    /**
+     * @brief A negative entry of the index list counts from the end of the axis (numpy convention).
+     */
+    template <typename entry_t, typename extent_t>
+    constexpr auto normalize_take_index(const entry_t entry, [[maybe_unused]] const extent_t extent)
+    {
+        if constexpr (meta::is_signed_v<entry_t>) {
+            return (entry < 0) ? static_cast<entry_t>(entry + static_cast<entry_t>(extent)) : entry;
+        } else {
+            return entry;
+        }
+    } // normalize_take_index
 
     template <typename shape_t, typename indices_t, typename axis_t>
     constexpr auto shape_take(const shape_t& shape, const indices_t& indices, [[maybe_unused]] axis_t axis_)
@@ -97,14 +111,14 @@ namespace nmtools::index
             // TODO: provide overload that already compute strides
             auto strides = compute_strides(shape);
             auto dst_i   = at(index,0);
-            auto offset  = at(indices,dst_i);
+            auto offset  = normalize_take_index(at(indices,dst_i),product(shape));
             impl::compute_indices(res, offset, shape, strides);
         }
         else {
             auto take_impl = [&](auto i){
                 auto dst_i = at(index,i);
                 using common_t = meta::promote_index_t<axis_t,decltype(i)>;
-                at(res, i) = ((common_t)i == (common_t)axis) ? at(indices,dst_i) : dst_i;
+                at(res, i) = ((common_t)i == (common_t)axis) ? normalize_take_index(at(indices,dst_i),at(shape,i)) : dst_i;
             };
             if constexpr (meta::is_fixed_index_array_v<index_t>) {
                 constexpr auto DIM = meta::len_v<index_t>;
